@@ -11,7 +11,7 @@ import random
 
 import numpy as np
 
-from . import ref, seams
+from . import ref, seams, pristine
 from .core import Result, quiet, digest_of
 from .oracle import diff, fingerprint, outcome_diff
 from .simcfg import gen_sim_cfg, simpler_sim_cfgs
@@ -101,7 +101,7 @@ def gen_plan(wl, fr, idx):
                       'natural': wl.random() < 0.3}
     plan['repeat'] = wl.random() < 0.5
     plan['yield'] = [wl.choice((1, 2, 4)), 8]
-    plots = plan['config'] == 'sequential' and wl.random() < 0.2
+    plots = plan['config'] == 'sequential' and wl.random() < 0.3
     plan['sessions'] = [_gen_session(wl, plan, s, plots) for s in range(nsess)]
     plan['sim'] = gen_sim_cfg(fr, 4)
     return plan
@@ -157,14 +157,19 @@ def _gen_session(wl, plan, s, plots):
             ops.append({'fn': 'extrema', 'sig': sig, 'boundary': wl.choice((0, 0, 3)),
                         'fk': wl.choice((None, 'FK0'))})
             avail.append({'name': rname_prev(s, ops), 'kind': 'extrema', 'sig': sig})
-        elif r < 0.50:
-            e = pick(('extrema',))
-            if e:
-                ops.append({'fn': 'zerox', 'sig': e['sig'], 'ext': e['name']})
-                avail.append({'name': rname_prev(s, ops), 'kind': 'zerox', 'sig': e['sig'], 'ext': e['name']})
         elif r < 0.53:
-            z = pick(('zerox',))
-            if z:
+            # extrema -> zerox -> phase chain on one signal (missing links are inserted)
+            e = pick(('extrema',))
+            if e is None:
+                ops.append({'fn': 'extrema', 'sig': sig, 'boundary': 0, 'fk': wl.choice((None, 'FK0'))})
+                e = {'name': rname_prev(s, ops), 'kind': 'extrema', 'sig': sig}
+                avail.append(e)
+            z = pick(('zerox',), ext=e['name'])
+            if z is None or r < 0.49:
+                ops.append({'fn': 'zerox', 'sig': e['sig'], 'ext': e['name']})
+                z = {'name': rname_prev(s, ops), 'kind': 'zerox', 'sig': e['sig'], 'ext': e['name']}
+                avail.append(z)
+            if r >= 0.49:
                 ops.append({'fn': 'phase', 'sig': z['sig'], 'ext': z['ext'], 'zx': z['name']})
         elif r < 0.61:
             t = pick(('shape',))
@@ -212,15 +217,22 @@ def _gen_session(wl, plan, s, plots):
             t = pick(('features', 'shape'), samples=True)
             if t:
                 ops.append({'fn': 'epoch', 'table': t['name'], 'k': wl.choice((2, 3))})
-        elif r < 0.96:
+        elif r < 0.94:
             t = pick(('features', 'shape', 'samples'))
             if t:
                 ops.append({'fn': 'drop', 'table': t['name']})
                 avail.append(dict(t, name=rname_prev(s, ops), samples=False))
         elif plots and n_plots < 2:
-            t = pick(('features',), samples=True)
+            t = pick(('features',), samples=True, method='cycles') or pick(('features',), samples=True)
+            if t is None:
+                # make sure a plottable table exists
+                ops.append({'fn': 'cf', 'sig': sig, 'center': wl.choice(('peak', 'trough')), 'method': 'cycles',
+                            'th': wl.choice(('THC0', 'THC1')), 'bk': None, 'fe': None, 'rs': True})
+                t = {'name': rname_prev(s, ops), 'kind': 'features', 'sig': sig, 'center': ops[-1]['center'],
+                     'method': 'cycles', 'samples': True}
+                avail.append(t)
             if t:
-                kind = wl.choice(('summary', 'param', 'cpdf', 'hist', 'cat'))
+                kind = wl.choice(('summary', 'summary', 'param', 'cpdf', 'hist', 'cat'))
                 if kind in ('summary', 'param') and t['method'] != 'cycles':
                     kind = 'cpdf'
                 op = {'fn': 'plot_' + kind, 'table': t['name'], 'sig': t['sig']}
@@ -229,6 +241,22 @@ def _gen_session(wl, plan, s, plots):
                     op['only_result'] = wl.random() < 0.5
                 ops.append(op)
                 n_plots += 1
+    if plots:
+        for _ in range(wl.choice((1, 2))):
+            t = pick(('features',), samples=True, method='cycles')
+            if t is None:
+                sig = 'S%d' % wl.randrange(nsig)
+                ops.append({'fn': 'cf', 'sig': sig, 'center': wl.choice(('peak', 'trough')), 'method': 'cycles',
+                            'th': wl.choice(('THC0', 'THC1')), 'bk': None, 'fe': None, 'rs': True})
+                t = {'name': rname_prev(s, ops), 'kind': 'features', 'sig': sig, 'center': ops[-1]['center'],
+                     'method': 'cycles', 'samples': True}
+                avail.append(t)
+            kind = wl.choice(('summary', 'summary', 'param', 'cpdf', 'hist', 'cat'))
+            op = {'fn': 'plot_' + kind, 'table': t['name'], 'sig': t['sig']}
+            if kind == 'summary':
+                op['th'] = wl.choice(('THC0', 'THC1'))
+                op['only_result'] = wl.random() < 0.5
+            ops.append(op)
     return ops
 
 
@@ -294,11 +322,16 @@ class ArgPool:
         self.uses[name] = 0
 
     def changed(self):
-        """First pool object whose value differs from its pristine value, with a description."""
+        """A pool object whose value differs from its pristine value, with a description.
+        When several changed (a dict and the dicts that nest it), the innermost is reported."""
+        best = None
         for n in sorted(self.objs):
             if fingerprint(self.objs[n]) != self.fp[n]:
-                return n, describe_change(self.pristine[n], self.objs[n])
-        return None
+                d = describe_change(self.pristine[n], self.objs[n])
+                depth = d[0].count('.')
+                if best is None or depth < best[0]:
+                    best = (depth, n, d)
+        return None if best is None else (best[1], best[2])
 
 
 def _refs(spec):
@@ -436,6 +469,24 @@ def _closing(f):
     return call
 
 
+def _extra_names(op):
+    bad = op.get('bad')
+    if bad == 'amp_threshes':
+        return ['BKBAD', 'THA0']
+    if bad == 'th_range':
+        return ['THBAD_' + op['method']]
+    return []
+
+
+def _pure_eval(op, values, band):
+    from .rng import Tape
+    import warnings
+    warnings.simplefilter('ignore')
+    f, a, k = build_call(op, lambda nm: values[nm], band)
+    with Installed(Sim({'mode': 'fifo'}, Tape(0))):
+        return call_outcome(f, a, k)
+
+
 def op_names(op):
     """Pool names an operation draws by reference."""
     out = []
@@ -483,23 +534,10 @@ class Session:
         self.stop = False
 
     def pure(self, op):
-        """The pure interpreter: evaluate on fresh deep copies of pristine values."""
-        pool = self.pool
-
-        def get(name):
-            return copy.deepcopy(pool.pristine[name])
-        saved = self.ctl.suspended
-        self.ctl.suspended = True
-        saved_mode, saved_faults, saved_bg = self.sim.mode, self.sim.faults, self.sim.cfg.get('bg_steps')
-        self.sim.mode, self.sim.faults = 'fifo', {}
-        self.sim.cfg['bg_steps'] = 0
-        try:
-            f, a, k = build_call(op, get, self.plan['band'])
-            return call_outcome(f, a, k)
-        finally:
-            self.sim.mode, self.sim.faults = saved_mode, saved_faults
-            self.sim.cfg['bg_steps'] = saved_bg
-            self.ctl.suspended = saved
+        """The pure interpreter: the same call on private copies of the pristine values of its
+        arguments, evaluated in a pristine fork (empty call history, no shared module state)."""
+        values = {nm: self.pool.pristine[nm] for nm in op_names(op) + _extra_names(op)}
+        return pristine.call('simcheck.c15:_pure_eval', op, values, self.plan['band'])
 
     def run_op(self, s, n, op, arm=None, repeat=False):
         pool, res = self.pool, self.res
@@ -510,6 +548,8 @@ class Session:
         f, a, k = build_call(op, lambda nm: pool.objs[nm], self.plan['band'])
         got = call_outcome(f, a, k, arm=arm)
         tag = '' if not repeat else 'repeat:'
+        if not repeat:
+            res.stats['call.%s.%s' % (op['fn'], got[0])] += 1
         self.hist.append((s, tag + op['fn'], tuple(names), got[0]))
         if got[0] == 'deadlock':
             res.violate('no-return', 'deadlock', 'session %d op %d (%s) blocks forever: %s' % (s, n, op['fn'], got[1]))
@@ -520,7 +560,9 @@ class Session:
             name, (key, what) = ch
             kind = pool.kind[name]
             suffix = ':interrupted' if got[0] == 'interrupted' else (':raised' if got[0] == 'raise' else '')
-            res.violate('argument-mutated', '%s:%s:%s%s' % (op['fn'], kind, key, suffix),
+            # with interleaved sessions the call that observes the change need not be the one that made it
+            who = op['fn'] if self.plan['config'] == 'sequential' else 'concurrent'
+            res.violate('argument-mutated', '%s:%s:%s%s' % (who, kind, key, suffix),
                         'session %d op %d: %s(%s) modified the caller\'s %s (%s): %s'
                         % (s, n, op['fn'], ', '.join(names), name, kind, what))
             self.stop = True
@@ -598,7 +640,7 @@ def execute(plan, tape):
         if baton is not None:
             baton.in_call[s] = False
 
-    with quiet(), Installed(sim), seams.activate(ctl):
+    with quiet(), pristine.active(), Installed(sim), seams.activate(ctl):
         if plan['config'] == 'interleaved' and len(plan['sessions']) > 1:
             baton = seams.Baton(tape, len(plan['sessions']))
             ctl.baton = baton
@@ -681,6 +723,24 @@ def shrink(plan):
         p = copy.deepcopy(plan)
         p['repeat'] = False
         yield p
+    # one call plus the calls it depends on (through result names), everything else removed
+    n_real = sum(1 for ops in plan['sessions'] for o in ops if o.get('fn') != 'nop')
+    for s, ops in enumerate(plan['sessions']):
+        for i in range(len(ops) - 1, -1, -1):
+            if ops[i].get('fn') == 'nop':
+                continue
+            keep = _closure(ops, s, i)
+            if len(keep) >= n_real:
+                continue
+            p = copy.deepcopy(plan)
+            p['sessions'] = [[(o if (t == s and j in keep) else {'fn': 'nop'}) for j, o in enumerate(os_)]
+                             for t, os_ in enumerate(plan['sessions'])]
+            p['config'] = 'sequential'
+            p['sessions'] = [p['sessions'][s]]
+            if s != 0:
+                # result names carry the session number: renumber to session 0
+                p['sessions'] = [[_rename(o, s, 0) for o in p['sessions'][0]]]
+            yield p
     if len(plan['sessions']) > 1:
         for s in range(len(plan['sessions'])):
             p = copy.deepcopy(plan)
@@ -733,6 +793,29 @@ def shrink(plan):
             p = copy.deepcopy(plan)
             del p['dicts'][name][k]
             yield p
+
+
+def _closure(ops, s, i):
+    keep, todo = set(), [i]
+    prefix = 'R%d.' % s
+    while todo:
+        j = todo.pop()
+        if j in keep or ops[j].get('fn') == 'nop':
+            continue
+        keep.add(j)
+        for nm in op_names(ops[j]):
+            if nm.startswith(prefix):
+                todo.append(int(nm[len(prefix):]))
+    return keep
+
+
+def _rename(op, s_from, s_to):
+    out = dict(op)
+    for k in ('table', 'ext', 'zx'):
+        v = out.get(k)
+        if isinstance(v, str) and v.startswith('R%d.' % s_from):
+            out[k] = 'R%d.' % s_to + v.split('.', 1)[1]
+    return out
 
 
 def sample_view(plan, res):
